@@ -1,4 +1,4 @@
-import AndaVerif.Proofs.TxHistory
+import AndaVerif.Proofs.TxWrites
 /-
 What a committed statement did, element by element; the journal along a history; tuple uniqueness.
 -/
@@ -45,31 +45,39 @@ structure DoneSpec (s : Store) (st : Stmt) (q : Nat) (status : JStatus) (w : Lis
   /-- every changed element carries the version of its change record and the commit's sequence,
   and has left the shell state -/
   stamped : ∀ c ∈ w, ∃ e, (exec s st).1.elems c.id = some e ∧ e.version = c.version ∧ e.seq = q ∧ e.state ≠ .pending
-  /-- a created element starts at version 1; an element that existed rises by exactly one -/
-  versions : ∀ c ∈ w, (c.op = .create → c.version = 1) ∧
-      (∀ e0, s.elems c.id = some e0 → c.op ≠ .create → c.version = e0.version + 1)
-  /-- a change that is not a creation keeps the immutable columns (type, key, tuple, payload) -/
-  immutable : ∀ c ∈ w, ∀ e0 e1, s.elems c.id = some e0 → (exec s st).1.elems c.id = some e1 → c.op ≠ .create →
-      e1.row.pay = e0.row.pay ∧ e1.row.tup = e0.row.tup ∧ e1.row.key = e0.row.key ∧ e1.row.ty = e0.row.ty
-  /-- one version row per change, in order, all at the commit's sequence -/
-  vlog : ∃ extra, (exec s st).1.vlog = extra ++ s.vlog ∧ extra.map VEntry.key = (w.map (Change.key q)).reverse ∧
-      ∀ v ∈ extra, (exec s st).1.elems v.id = some v.elem
+  /-- a created element starts at version 1 at an id that held nothing; an element that existed
+  rises by exactly one and is never reported as a creation -/
+  versions : ∀ c ∈ w, (c.op = .create → c.version = 1 ∧ s.elems c.id = none) ∧
+      (∀ e0, s.elems c.id = some e0 → c.version = e0.version + 1 ∧ c.op ≠ .create)
+  /-- a change keeps the immutable columns (type, key, tuple, payload) — unless the statement purges
+  the element, and then its old version rows are destroyed -/
+  immutable : ∀ c ∈ w, ∀ e0 e1, s.elems c.id = some e0 → (exec s st).1.elems c.id = some e1 →
+      (e1.row.pay = e0.row.pay ∧ e1.row.tup = e0.row.tup ∧ e1.row.key = e0.row.key ∧ e1.row.ty = e0.row.ty) ∨
+      c.id ∈ erasedOf s st
+  /-- one version row per change, in order, all at the commit's sequence; the old rows stay, except
+  those of the purged elements — which are among the changed ones -/
+  vlog : ∃ extra, (exec s st).1.vlog = extra ++ eraseAll (erasedOf s st) s.vlog ∧
+      extra.map VEntry.key = (w.map (Change.key q)).reverse ∧ ∀ v ∈ extra, (exec s st).1.elems v.id = some v.elem
+  erasedChanged : ∀ i ∈ erasedOf s st, i ∈ w.map (·.id)
 
 theorem exec_done {s : Store} (hwf : WF s) (st : Stmt) (q : Nat) (status : JStatus) (w : List Change)
     (h : (exec s st).2 = .done q status w) : DoneSpec s st q status w := by
   have hinv := planned_inv hwf st
   have hsinv := planned_sinv hwf st
+  have hero : erasedOf s st = erasedIds (planned s st).tx.staged := by unfold erasedOf; rw [h]
   rcases exec_cases s st with ⟨e', he, hr⟩ | ⟨he, hc⟩
   · rw [hr] at h; simp at h
-  · cases hc with
+  · have hp := planned_planinv hwf st he
+    cases hc with
     | dry hd hr => rw [hr] at h; simp at h
     | check hd e' hk hr => rw [hr] at h; simp at h
     | write hd u hk s' w' e' hw hr => rw [hr] at h; simp at h
     | done hd u hk s' w0 hw hr =>
-        obtain ⟨w', extra, sp⟩ := writeLoop_spec (planned s st).tx.seq (planned s st).tx.staged hsinv.keys (planned s st).s []
+        obtain ⟨w', extra, erased, sp⟩ := writeLoop_spec (planned s st).tx.seq (planned s st).tx.staged hsinv.keys (planned s st).s []
         rw [hw] at sp
         have hw' : w0 = w' := by have := sp.changes; simpa using this
         subst hw'
+        have herased : erased = erasedOf s st := by rw [hero]; exact sp.erasedAll rfl
         have hm := writeLoop_meta (planned s st).tx.seq (planned s st).s (planned s st).tx.staged []
         rw [hw] at hm
         have hq : (planned s st).tx.seq = s.seq + 1 := hinv.txseq
@@ -82,7 +90,7 @@ theorem exec_done {s : Store} (hwf : WF s) (st : Stmt) (q : Nat) (status : JStat
           intro i hi
           rw [committedStore_elems]; simp [hi]
         refine { seqs := ⟨by rw [← h1, hq], ?_⟩, statusIff := ?_, journal := ?_, once := sp.nodup, frame := ?_, stamped := ?_,
-                 versions := ?_, immutable := ?_, vlog := ?_ }
+                 versions := ?_, immutable := ?_, vlog := ?_, erasedChanged := ?_ }
         · rw [hex]
           show s'.seq = q
           rw [← h1, hq]; exact hm.2.1.trans hinv.seq
@@ -120,14 +128,17 @@ theorem exec_done {s : Store} (hwf : WF s) (st : Stmt) (q : Nat) (status : JStat
             have hnew : x.isNew = true := by
               cases hn : x.isNew with
               | true => rfl
-              | false => exact absurd (by rw [hceq] at hop; exact hop) (hok.2 hn).1
-            rw [hceq]; simp [changeOf, hnew]
-          · intro e0 he0 hop
+              | false => exact absurd (by rw [hceq] at hop; exact hop) (hok.2.1 hn).1
+            exact ⟨by rw [hceq]; simp [changeOf, hnew], hinv.fresh c.id (hp.n.newShell _ hx hnew)⟩
+          · intro e0 he0
             have hnew : x.isNew = false := by
               cases hn : x.isNew with
               | false => rfl
-              | true => exact absurd (by rw [hceq]; exact hok.1 hn) hop
-            obtain ⟨_, e, hee, hver, _⟩ := hok.2 hnew
+              | true =>
+                  have := hinv.fresh c.id (hp.n.newShell _ hx hn)
+                  rw [show ({ s with seq := s.seq + 1 } : Store).elems c.id = s.elems c.id from rfl, he0] at this
+                  cases this
+            obtain ⟨hopc, e, hee, hver, _⟩ := hok.2.1 hnew
             have hnsh : c.id ∉ (planned s st).tx.shells := by
               intro hm'
               have := hinv.fresh c.id hm'
@@ -138,15 +149,18 @@ theorem exec_done {s : Store} (hwf : WF s) (st : Stmt) (q : Nat) (status : JStat
             rw [show ({ s with seq := s.seq + 1 } : Store).elems c.id = s.elems c.id from rfl, he0] at hraw
             have : some e = some e0 := by rw [← hee]; exact hraw
             cases this
-            rw [hceq]; simp [changeOf, hnew, hver]
-        · intro c hc e0 e1 he0 he1 hop
+            exact ⟨by rw [hceq]; simp [changeOf, hnew, hver], by rw [hceq]; exact hopc⟩
+        · intro c hc e0 e1 he0 he1
           obtain ⟨x, hx, hch, hceq, hel, _⟩ := sp.written c hc
           have hok := hsinv.entries _ hx
           have hnew : x.isNew = false := by
             cases hn : x.isNew with
             | false => rfl
-            | true => exact absurd (by rw [hceq]; exact hok.1 hn) hop
-          obtain ⟨_, e, hee, _, hty, hkey, htup, hpay⟩ := hok.2 hnew
+            | true =>
+                have := hinv.fresh c.id (hp.n.newShell _ hx hn)
+                rw [show ({ s with seq := s.seq + 1 } : Store).elems c.id = s.elems c.id from rfl, he0] at this
+                cases this
+          obtain ⟨_, e, hee, _, himm⟩ := hok.2.1 hnew
           have hnsh : c.id ∉ (planned s st).tx.shells := by
             intro hm'
             have := hinv.fresh c.id hm'
@@ -159,8 +173,13 @@ theorem exec_done {s : Store} (hwf : WF s) (st : Stmt) (q : Nat) (status : JStat
           cases h01
           rw [hex, hkeep c.id (List.mem_map.mpr ⟨c, hc, rfl⟩), hel] at he1
           cases he1
-          exact ⟨hpay.symm, htup.symm, hkey.symm, hty.symm⟩
-        · refine ⟨extra, by rw [hex]; show s'.vlog = _; rw [sp.vlog, hinv.vlog], ?_, ?_⟩
+          rcases himm with ⟨hty, hkey, htup, hpay⟩ | ⟨_, _, _, _, her⟩
+          · exact .inl ⟨hpay.symm, htup.symm, hkey.symm, hty.symm⟩
+          · right
+            rw [hero]
+            have her' : x.erase = true := her
+            exact List.mem_map.mpr ⟨(c.id, x), List.mem_filter.mpr ⟨hx, by simp [hch, her']⟩, rfl⟩
+        · refine ⟨extra, by rw [hex]; show s'.vlog = _; rw [sp.vlog, hinv.vlog, herased], ?_, ?_⟩
           rotate_left
           · intro v hv
             have hvid : v.id ∈ w0.map (·.id) := by
@@ -203,5 +222,8 @@ theorem exec_done {s : Store} (hwf : WF s) (st : Stmt) (q : Nat) (status : JStat
             rw [← hvk, hcv]
             exact List.mem_reverse.mpr (List.mem_map.mpr ⟨c, hc, rfl⟩)
           exact list_eq_of_keys hids hnd hmemR
+        · intro i hi
+          rw [← herased] at hi
+          exact (sp.erasedSub i hi).1
 
 end AndaVerif.Tx
